@@ -82,6 +82,35 @@ func helperTrueImpliesPositiveOp(fn *ssa.Function, fOp *types.Var) bool {
 			cuts.addEdges(f)
 		}
 	})
+	// the operators kept as a set: `selectingOps[f.Op]` with a package-level map literal whose true keys are all positive
+	var setLookups []ssa.Value
+	allInstrs(fn, func(in ssa.Instruction) {
+		lk, ok := in.(*ssa.Lookup)
+		if !ok || !isLoadOfField(lk.Index, fOp) || !isBoolType(lk.Type()) {
+			return
+		}
+		u, ok := lk.X.(*ssa.UnOp)
+		if !ok {
+			return
+		}
+		g, ok := u.X.(*ssa.Global)
+		if !ok {
+			return
+		}
+		keys, ok := globalBoolSet(g)
+		if !ok {
+			return
+		}
+		for k := range keys {
+			if !positiveOps[k] {
+				return
+			}
+		}
+		saw = true
+		t, _ := boolEdges(lk)
+		cuts.addEdges(t)
+		setLookups = append(setLookups, lk)
+	})
 	if !saw {
 		return false
 	}
@@ -103,6 +132,15 @@ func helperTrueImpliesPositiveOp(fn *ssa.Function, fOp *types.Var) bool {
 				}
 			}
 			if lf.Pred != nil && lf.Phi != nil && cuts.Edges[Edge{lf.Pred, lf.Phi.Block()}] {
+				continue
+			}
+			isSet := false
+			for _, sl := range setLookups {
+				if lf.Val == sl {
+					isSet = true // false under the assumption
+				}
+			}
+			if isSet {
 				continue
 			}
 			return true
@@ -132,14 +170,29 @@ func propC12(c *Ctx) {
 	for _, fn := range w.RepoFuncs() {
 		news = append(news, callsToFn(fn, newF)...)
 	}
-	if len(news) != 1 || news[0].Parent() != flt {
-		c.Violation("R12.1", "glf.New/callers", newF.Pos(), fmt.Sprintf("expected glf.New to be called once, from Integration.Filter; found %d calls", len(news)))
+	for _, n := range news {
+		if n.Parent() != flt {
+			c.Violation("R12.1", "glf.New/callers", newF.Pos(), fmt.Sprintf("glf.New is expected to be called from Integration.Filter only; found a call in %s", fnName(n.Parent())))
+			return
+		}
+	}
+	if len(news) == 0 {
+		c.Violation("R12.1", "glf.New/callers", newF.Pos(), "Integration.Filter does not build a glf.Filter")
 		return
 	}
-	nw := news[0]
-	addrs := nw.Call.Args[1]
+	// several returns may each build the filter (an early one without addresses): every one is judged
+	nw := news[len(news)-1]
+	var addrLeaves []phiLeaf
+	for _, n := range news {
+		addrLeaves = append(addrLeaves, phiLeaves(n.Call.Args[1])...)
+	}
 	nPush := 0
-	for _, lf := range phiLeaves(addrs) {
+	seenPush := map[ssa.Value]bool{}
+	for _, lf := range addrLeaves {
+		if seenPush[lf.Val] {
+			continue
+		}
+		seenPush[lf.Val] = true
 		ap, ok := lf.Val.(*ssa.Call)
 		if !ok || calleeName(ap) != "builtin append" {
 			continue // nil / initial value
@@ -213,10 +266,56 @@ func propC12(c *Ctx) {
 			}
 		})
 		okA = len(guards) > 0 && guardedByEdges(flt, ap, guards)
+		if !okA {
+			// a boolean helper of Filter that looks at the operator guards the push, in a form that is not read
+			// (a set of operators kept as a map, …): present, not decided
+			var unread []Edge
+			allInstrs(flt, func(in ssa.Instruction) {
+				x, ok := in.(*ssa.Call)
+				if !ok {
+					return
+				}
+				cal := staticCallee(x)
+				if cal == nil || cal.Blocks == nil || cal.Signature.Recv() == nil || !repoNamedIs(cal.Signature.Recv().Type(), "dig", "Filter") || !isBoolType(x.Type()) {
+					return
+				}
+				readsOp, cmpConst := false, false
+				allInstrs(cal, func(in2 ssa.Instruction) {
+					if v, isV := in2.(ssa.Value); isV {
+						if lf2, _ := fieldOf(v); lf2 == fOp {
+							readsOp = true
+						}
+					}
+					if b, isB := in2.(*ssa.BinOp); isB && (b.Op == token.EQL || b.Op == token.NEQ) {
+						if _, k1 := constString(b.Y); k1 && isLoadOfField(b.X, fOp) {
+							cmpConst = true
+						}
+						if _, k2 := constString(b.X); k2 && isLoadOfField(b.Y, fOp) {
+							cmpConst = true
+						}
+					}
+					if lk, isLk := in2.(*ssa.Lookup); isLk && isLoadOfField(lk.Index, fOp) {
+						cmpConst = true // a set of operators: read by helperTrueImpliesPositiveOp
+					}
+				})
+				// a helper that compares the operator with constants (or looks it up in a set) is READ: when it
+				// was not accepted above it is wrong, not unreadable
+				if readsOp && !cmpConst {
+					t, _ := boolEdges(x)
+					unread = append(unread, t...)
+				}
+			})
+			if len(unread) > 0 && guardedByEdges(flt, ap, unread) {
+				c.OK("R12.1", fmt.Sprintf("Integration.Filter/push#%d/positive-operator", nPush), ap.Pos(), "the push is guarded by a helper of Filter that looks at the operator, in a form that is not read: not decided")
+				goto partB
+			}
+		}
 		c.Check("R12.1", fmt.Sprintf("Integration.Filter/push#%d/positive-operator", nPush), ap.Pos(), okA,
 			"an address is added to the eth_getLogs restriction only when the filter's operator is contains/eq: for any other operator the restriction would exclude exactly the logs the filter accepts")
+	partB:
 		// (b) aggregation consulted
 		var aggGuards []Edge
+		var aggUnread []Edge
 		allInstrs(flt, func(in ssa.Instruction) {
 			if b, ok := in.(*ssa.BinOp); ok && (b.Op == token.EQL || b.Op == token.NEQ) && (isLoadOfField(b.X, fAGG) || fieldIs(b.X, fAGG)) {
 				t, f := boolEdges(b)
@@ -244,6 +343,32 @@ func propC12(c *Ctx) {
 			})
 			if len(andT) == 0 {
 				return
+			}
+			hasCounter := false
+			NewRegion(cal).AllInstrs(func(in2 ssa.Instruction) {
+				if b, isB := in2.(*ssa.BinOp); isB && b.Op == token.ADD {
+					if ph, isPhi := b.X.(*ssa.Phi); isPhi {
+						if n, isK := constInt(b.Y); isK && n == 1 {
+							// a loop index is compared with the loop bound; a counter is not
+							isIndex := false
+							for _, v := range []ssa.Value{b, ph} {
+								for _, ref := range *v.Referrers() {
+									if cmp, isCmp := ref.(*ssa.BinOp); isCmp && cmp.Op == token.LSS && cmp.X == v {
+										isIndex = true
+									}
+								}
+							}
+							if !isIndex {
+								hasCounter = true
+							}
+						}
+					}
+				}
+			})
+			if t, _ := boolEdges(x); len(t) > 0 && !hasCounter {
+				// consults the aggregation and decides "at most one filter" without counting (IndexFunc/ContainsFunc):
+				// a form that is not read
+				aggUnread = append(aggUnread, t...)
 			}
 			good := true
 			creg := NewRegion(cal) // the helper with its own single-use helpers (a counting function, …) inlined
@@ -380,6 +505,10 @@ func propC12(c *Ctx) {
 			}
 		})
 		okB := len(aggGuards) > 0 && guardedByEdges(flt, ap, aggGuards)
+		if !okB && len(aggUnread) > 0 && guardedByEdges(flt, ap, aggUnread) {
+			c.OK("R12.1", fmt.Sprintf("Integration.Filter/push#%d/aggregation-consulted", nPush), ap.Pos(), "the push is guarded by a helper of Integration that consults filter_agg, in a form that is not read (no counter): not decided")
+			continue
+		}
 		c.Check("R12.1", fmt.Sprintf("Integration.Filter/push#%d/aggregation-consulted", nPush), ap.Pos(), okB,
 			"the push-down does not consult filter_agg: with the default `or` aggregation a log accepted by another filter alone is never requested from the source")
 	}
@@ -924,4 +1053,40 @@ func propC12FoldOther(c *Ctx, add, acc *ssa.Function, fKind *types.Var) {
 	c.Check("R12.3", "filterResults.add/and-arm", add.Pos(), okAnd, "counter form: kind == \"and\" accepts when every added result was true")
 	c.Check("R12.3", "filterResults.add/or-arm", add.Pos(), okOr, "counter form: any other kind accepts when some added result was true")
 	c.Check("R12.3", "filterResults.accept/identity", acc.Pos(), okId, "no filter contributed → accept")
+}
+
+// globalBoolSet: g is a package-level map[string]bool written once by the initialiser from a
+// literal: the keys whose value is true.
+func globalBoolSet(g *ssa.Global) (map[string]bool, bool) {
+	if g == nil || g.Pkg == nil || currentWorld == nil || !currentWorld.globalStoredOnlyInInit(g) {
+		return nil, false
+	}
+	init := g.Pkg.Func("init")
+	var mk ssa.Value
+	allInstrs(init, func(in ssa.Instruction) {
+		if st, ok := in.(*ssa.Store); ok && st.Addr == ssa.Value(g) {
+			mk = st.Val
+		}
+	})
+	if mk == nil {
+		return nil, false
+	}
+	out := map[string]bool{}
+	ok := true
+	allInstrs(init, func(in ssa.Instruction) {
+		mu, isMU := in.(*ssa.MapUpdate)
+		if !isMU || mu.Map != mk {
+			return
+		}
+		k, isK := constString(mu.Key)
+		v, isV := mu.Value.(*ssa.Const)
+		if !isK || !isV || v.Value == nil {
+			ok = false
+			return
+		}
+		if v.Value.String() == "true" {
+			out[k] = true
+		}
+	})
+	return out, ok && len(out) > 0
 }
